@@ -25,7 +25,7 @@ ORDER = []
 
 
 class LoopSpec:
-    def __init__(self, invariant=None, havoc=(), variant=None, ghost_pre=None, ghost_post=None, havoc_kinds=None, label=None):
+    def __init__(self, invariant=None, havoc=(), variant=None, ghost_pre=None, ghost_post=None, havoc_kinds=None, label=None, instances=None, ghost_init=None):
         self.invariant = invariant or {}        # {label: lambda}
         self.havoc = list(havoc)                # heap paths written by the loop (locals are found syntactically)
         self.variant = variant                  # lambda -> int term, must decrease and be >= 0
@@ -33,6 +33,8 @@ class LoopSpec:
         self.ghost_post = ghost_post            # fn(ip, frame, env) run at the end of each iteration
         self.havoc_kinds = havoc_kinds or {}
         self.label = label
+        self.ghost_init = ghost_init            # fn(ip, frame, env) run once before the invariant is first checked (library-contract instantiations)
+        self.instances = instances              # fn(env) -> [ {skolem name: value} ]: further instances of the (universally valid) invariant assumed at the loop head
 
 
 class Contract:
